@@ -231,8 +231,10 @@ func propC04(o *out, r *rng, thorough bool) {
 		"CREATE CONTINUOUS QUERY q ON d BEGIN SELECT count(v) FROM m GROUP BY time(1m) END", "CREATE CONTINUOUS QUERY q ON d BEGIN SELECT v INTO t FROM m END garbage", "KILL QUERY 99999999999999999999", "DROP SHARD -1", "SELECT mean(v) FROM m GROUP BY time(5µ1m)", "SELECT v FROM m WHERE time > now() - 1µ2m", "SELECT v FROM m WHERE d = $p AND e = 7µ1m",
 		"SELECT *::foo FROM cpu", "SELECT *::\n  foo FROM cpu", "SELECT *:: FROM m", "SELECT x::foo FROM m", "SELECT x:: FROM m", "SELECT mean(*::foo) FROM m", "SELECT *::field::tag FROM m",
 		"SELECT a, *::\r\n\tbar, c FROM m", "SELECT * ::field FROM m", "SELECT v FROM m GROUP BY *::foo", "SELECT DISTINCT 5 FROM m", "SELECT DISTINCT( FROM m", "SELECT count(DISTINCT) FROM m",
-		"SELECT value /* a * b / c", "/*", "SELECT 1 /* x *", "SELECT v FROM m -- c", "SELECT v FROM m /* never closed", "CREATE RETENTION POLICY p ON d DURATION 3µ4ms REPLICATION 1", "CREATE RETENTION POLICY p ON d DURATION 1h REPLICATION 0", "SELECT v INTO FROM m"} {
-		for _, ps := range []map[string]interface{}{nil, {"p": int64(1)}, {"p": "s"}, {"p": map[string]interface{}{"regex": "("}}, {"p": map[string]interface{}{"duration": "zz"}}, {"p": map[string]interface{}{"duration": "7µ1m"}}, {"p": float64(-1.5)}, {"p": true}} {
+		"SELECT value /* a * b / c", "/*", "SELECT 1 /* x *", "SELECT v FROM m -- c", "SELECT v FROM m /* never closed", "CREATE RETENTION POLICY p ON d DURATION 3µ4ms REPLICATION 1", "CREATE RETENTION POLICY p ON d DURATION 1h REPLICATION 0", "SELECT v INTO FROM m",
+		"SELECT \"ȺȺȺȺȺȺ\" FROM cpu", "SELECT v FROM \"ȺȺȺȺȺȺ\".a.b.c", "SELECT v FROM \"ȾȾȾȾȾȾȾȾ\".\"Ⱥ\".b.c.d", "SELECT v FROM $p.a.b.c", "DROP MEASUREMENT \"ȺȺȺȺȺȺȺȺ\" x", "SELECT ȺȺȺȺȺȺ FROM m"} {
+		for _, ps := range []map[string]interface{}{nil, {"p": int64(1)}, {"p": "s"}, {"p": map[string]interface{}{"regex": "("}}, {"p": map[string]interface{}{"duration": "zz"}}, {"p": map[string]interface{}{"duration": "7µ1m"}}, {"p": float64(-1.5)}, {"p": true},
+			{"p": map[string]interface{}{"identifier": "\xff\xfe\xff\xfe\xff\xfe"}}, {"p": map[string]interface{}{"identifier": "ȺȺȺȺȺȺȺȺ"}}} {
 			c04One(o, w, ps, "witness")
 		}
 	}
